@@ -242,3 +242,135 @@ example : (Hist.save ⟨100, [5]⟩ 103 9) = some ⟨100, [5, 0, 0, 9]⟩ ∧ (H
     (Hist.save ⟨100, [5]⟩ 99 6) = none ∧ Hist.load ⟨100, [5]⟩ 5000 = some 0 := by decide
 
 end Gca.Cl
+
+namespace Gca.Cl
+
+/-! ### Emission at the level of the reporting loop -/
+
+/-- One event in the life of the client: a start (or restart) on the current
+energy-file records, or one loop iteration on the records just read. -/
+inductive LoopEv where
+  | start (recs : List Record)
+  | iter (recs : List Record)
+
+/-- Everything the client sends over a sequence of events (store and `latest` threaded through;
+a restart re-reads `latest` from the records it manages to save, as `launchSendReports` does). -/
+def sentOver : Hist → Nat → List LoopEv → List Record
+  | _, _, [] => []
+  | h, _, .start recs :: evs => let (h', l) := startup h recs; sentOver h' l evs
+  | h, latest, .iter recs :: evs =>
+    let (h', l, sent) := loopIter h latest recs
+    sent ++ sentOver h' l evs
+
+/-- For the timeslot `t`: every non-zero (mod 2^32) record of `S` for `t` is what the store holds at `t`. -/
+def SentGood (t : Nat) (h : Hist) (S : List Record) : Prop :=
+  ∀ r ∈ S, r.ts = t → r.energy % 2^32 ≠ 0 → h.load t = some (r.energy % 2^32)
+
+theorem SentGood.save {t : Nat} {h h' : Hist} {S : List Record} (hg : SentGood t h S) (ts v : Nat)
+    (hs : h.save ts v = some h') : SentGood t h' S := by
+  intro r hr ht h0
+  exact save_preserves h h' t _ ts v (hg r hr ht h0) h0 hs
+
+theorem SentGood.agree {t : Nat} {h : Hist} {S : List Record} (hg : SentGood t h S) (a b : Record)
+    (ha : a ∈ S) (hb : b ∈ S) (hat : a.ts = t) (hbt : b.ts = t)
+    (ha0 : a.energy % 2^32 ≠ 0) (hb0 : b.energy % 2^32 ≠ 0) : a.energy % 2^32 = b.energy % 2^32 := by
+  have h1 := hg a ha hat ha0
+  have h2 := hg b hb hbt hb0
+  rw [h1] at h2
+  exact Option.some.inj h2
+
+/-- The step of the fold in `loopIter`. -/
+def iterStep (latest : Nat) (acc : Hist × List Record) (r : Record) : Hist × List Record :=
+  match acc.1.save r.ts (r.energy % 2^32) with
+  | none => acc
+  | some h' => (h', if r.ts > latest then acc.2 ++ [r] else acc.2)
+
+theorem loopIter_eq (h : Hist) (latest : Nat) (recs : List Record) :
+    loopIter h latest recs =
+      ((recs.foldl (iterStep latest) (h, [])).1,
+       recs.foldl (fun l r => if r.ts > l then r.ts else l) latest,
+       (recs.foldl (iterStep latest) (h, [])).2) := rfl
+
+theorem iterFold_good (t latest : Nat) (S : List Record) (recs : List Record) (acc : Hist × List Record)
+    (hg : SentGood t acc.1 (S ++ acc.2)) :
+    SentGood t (recs.foldl (iterStep latest) acc).1 (S ++ (recs.foldl (iterStep latest) acc).2) := by
+  induction recs generalizing acc with
+  | nil => exact hg
+  | cons r rs ih =>
+    rw [List.foldl_cons]
+    apply ih
+    unfold iterStep
+    cases hs : acc.1.save r.ts (r.energy % 2^32) with
+    | none => exact hg
+    | some h' =>
+      have hg' := hg.save _ _ hs
+      simp only
+      split
+      · intro x hx ht h0
+        rw [← List.append_assoc, List.mem_append, List.mem_singleton] at hx
+        rcases hx with hx | rfl
+        · exact hg' x hx ht h0
+        · rw [← ht]; exact c09_save_then_load _ _ _ _ hs
+      · exact hg'
+
+/-- The step of the fold in `startup`. -/
+def startStep (acc : Hist × Nat) (r : Record) : Hist × Nat :=
+  match acc.1.save r.ts (r.energy % 2^32) with
+  | none => acc
+  | some h' => (h', if r.ts > acc.2 then r.ts else acc.2)
+
+theorem startup_eq (h : Hist) (recs : List Record) : startup h recs = recs.foldl startStep (h, 0) := rfl
+
+theorem startFold_good (t : Nat) (S : List Record) (recs : List Record) (acc : Hist × Nat)
+    (hg : SentGood t acc.1 S) : SentGood t (recs.foldl startStep acc).1 S := by
+  induction recs generalizing acc with
+  | nil => exact hg
+  | cons r rs ih =>
+    rw [List.foldl_cons]
+    apply ih
+    unfold startStep
+    cases hs : acc.1.save r.ts (r.energy % 2^32) with
+    | none => exact hg
+    | some h' => exact hg.save _ _ hs
+
+theorem sentOver_good (t : Nat) (evs : List LoopEv) (h : Hist) (latest : Nat) (S : List Record)
+    (hg : SentGood t h S) (a b : Record)
+    (ha : a ∈ S ++ sentOver h latest evs) (hb : b ∈ S ++ sentOver h latest evs)
+    (hat : a.ts = t) (hbt : b.ts = t)
+    (ha0 : a.energy % 2^32 ≠ 0) (hb0 : b.energy % 2^32 ≠ 0) : a.energy % 2^32 = b.energy % 2^32 := by
+  induction evs generalizing h latest S with
+  | nil =>
+    simp only [sentOver, List.append_nil] at ha hb
+    exact hg.agree a b ha hb hat hbt ha0 hb0
+  | cons ev evs ih =>
+    cases ev with
+    | start recs =>
+      simp only [sentOver] at ha hb
+      have hg' := startFold_good t S recs (h, 0) hg
+      rw [← startup_eq] at hg'
+      exact ih _ _ S hg' ha hb
+    | iter recs =>
+      simp only [sentOver, ← List.append_assoc] at ha hb
+      have hg' := iterFold_good t latest S recs (h, []) (by simpa using hg)
+      exact ih _ _ _ hg' ha hb
+
+/-- Over any evolution of the energy file and any restarts, all records the client
+sends for one timeslot whose low 32 bits are non-zero agree modulo 2^32 - and are
+therefore identical when the values fit 32 signed bits. -/
+theorem c09_loop_no_equivocation (h : Hist) (latest : Nat) (evs : List LoopEv) (a b : Record)
+    (ha : a ∈ sentOver h latest evs) (hb : b ∈ sentOver h latest evs) (hts : a.ts = b.ts)
+    (ha0 : a.energy % 2^32 ≠ 0) (hb0 : b.energy % 2^32 ≠ 0) : a.energy % 2^32 = b.energy % 2^32 := by
+  exact sentOver_good b.ts evs h latest [] (fun _ hr => by simp at hr) a b (by simpa using ha)
+    (by simpa using hb) hts rfl ha0 hb0
+
+/-- Nothing is sent for a value the store refused: every sent record's low 32 bits are what the store holds. -/
+theorem c09_sent_is_stored (h : Hist) (latest : Nat) (recs : List Record) (r : Record)
+    (hr : r ∈ (loopIter h latest recs).2.2) :
+    (loopIter h latest recs).1.load r.ts = some (r.energy % 2^32) ∨ r.energy % 2^32 = 0 := by
+  rw [loopIter_eq] at hr ⊢
+  have hg := iterFold_good r.ts latest [] recs (h, []) (fun _ hr => by simp at hr)
+  by_cases h0 : r.energy % 2^32 = 0
+  · exact Or.inr h0
+  · exact Or.inl (hg r (by simpa using hr) rfl h0)
+
+end Gca.Cl
